@@ -102,6 +102,8 @@ def run(sid, props=None):
                 out[p]["error"] = r.stdout[-800:]
     finally:
         shutil.rmtree(d, ignore_errors=True)
+        import extract
+        extract.drop_scratch("seed-" + sid)
     return out
 
 
